@@ -694,6 +694,23 @@ class RealFS(MemFS):
         _shutil.rmtree(self.root, ignore_errors=True)
 
 
+class PassthroughFS(RealFS):
+    """RealFS without a private root: virtual path == real absolute path. Used to put numbered steps / crash injection under a SINGLE
+    module (e.g. the JSON document back end) while everything else uses the real os module directly."""
+    kind = "passthrough"
+
+    def __init__(self):
+        MemFS.__init__(self)
+        self.root = ""
+        self.handles = {}
+
+    def r(self, p):
+        return p
+
+    def cleanup(self):
+        pass
+
+
 # ---------------------------------------------------------------------------------------------- fake modules
 def fake_os(fs):
     ns = types.SimpleNamespace()
